@@ -32,12 +32,13 @@ open SophiaModel Re Pretty
 /-- the four repaired branches are the repaired ones on the checked tree (tools/extractors/c04.py recognises the
 shipped and the repaired text of each and fails closed on anything else): `()` only in node position, the
 per-walk stamp of the cycle walk, a second rdf:rest disqualifies a list cell (`_pretty.rs`), and
-`with_indentation` asserts Turtle white space (`turtle.rs`, d9e6461).  The theorems below that are conditional on
+`with_indentation` asserts Turtle white space (`turtle.rs`, d9e6461); and the writer has a nesting cap for
+anonymous blank nodes (`MAX_BNODE_NESTING`, da7f8f8; its value is regenerated, not fixed here).  The theorems below that are conditional on
 a flag are instantiated with it (`cycle_has_labelled_holds`, `list_cell_one_rest_holds`, `indent_safe_holds`),
 so a regression of /repo fails a proof obligation and not only the differential. -/
 theorem repo_flags :
     Gen.PrettyFlags.nilNodeOnly = true ∧ Gen.PrettyFlags.walkStamp = true ∧ Gen.PrettyFlags.singleRest = true ∧
-    Gen.PrettyFlags.indentTurtleWs = true := by
+    Gen.PrettyFlags.indentTurtleWs = true ∧ Gen.PrettyFlags.maxBnodeNesting.isSome = true := by
   decide
 
 /-! ## Layer 1 — token safety -/
@@ -215,7 +216,7 @@ theorem indent_safe_partial (h : Gen.PrettyFlags.indentTurtleWs = true) : Indent
   exact ha c hc
 
 /-- the FULL statement on the checked tree (instantiated with `repo_flags`) -/
-theorem indent_safe_holds : IndentSafe := indent_safe_partial repo_flags.2.2.2
+theorem indent_safe_holds : IndentSafe := indent_safe_partial repo_flags.2.2.2.1
 
 /-- kernel-checked refutation for the formerly shipped assertion (`char::is_whitespace`), finding
 C04-indent-unicode-ws (fixed): U+00A0 is accepted -/
@@ -522,6 +523,37 @@ theorem roots_all_written_partial (cfg : Cfg) (quads : List Quad) (lists : Lists
         ∃ e', w.sts[i]? = some e' ∧ e'.g = e.g ∧ e'.s = e.s ∧ (e'.st = e.st ∨ e'.st = .done)) ∧
     ∀ e ∈ w.sts, e.st ≠ .root :=
   serialize_roots_done cfg quads lists sts w hl h
+
+/-- the nesting cap (`MAX_BNODE_NESTING`, /repo da7f8f8): a SubTree blank node met at the cap is labelled, pushed on
+`deferred` and described by a `write_tree` of its own after the Roots of the graph.  `write_graph`, unless it gives
+up (`fault`: iteration bound of the model / index outside the table), ends with an empty stack, and every entry that
+was deferred while the Roots were written is `Done` at the end (entries deferred by deferred trees too: the
+statement is proved for the loop from any state, `Lemmas.PrettyWriter.drain_done`). -/
+theorem deferred_all_written_partial (env : Env) (fuel : Nat) (w : W) :
+    (writeGraph env fuel w).fault = true ∨
+    ((writeGraph env fuel w).deferred = [] ∧
+      ∀ i ∈ (writeRoots env fuel w).deferred, ∀ e, (writeRoots env fuel w).sts[i]? = some e →
+        ∃ e', (writeGraph env fuel w).sts[i]? = some e' ∧ e'.st = .done ∧ e'.s = e.s) :=
+  writeGraph_deferred_done env fuel w
+
+/-- … and at the end of `serialize`, on any stream of quads, nothing is left on the deferred stack -/
+theorem nothing_left_deferred (cfg : Cfg) (quads : List Quad) (w : W) (h : serialize cfg quads = .done w) :
+    w.fault = true ∨ w.deferred = [] :=
+  serialize_drained cfg quads w h
+
+/-- a chain `<x:s> <x:p> _:c0 . _:c0 <x:p> _:c1 . … _:c(n-1) <x:p> <x:o>` -/
+def chainQuads (n : Nat) : List Quad :=
+  let b (k : Nat) : Term := .bnode (("c" ++ toString k).toList)
+  ⟨.iri "x:s".toList, .iri "x:p".toList, b 0, none⟩ ::
+    ((List.range n).map (fun k => ⟨b k, .iri "x:p".toList, if k + 1 < n then b (k + 1) else .iri "x:o".toList, none⟩))
+
+-- non-vacuity: a chain of 150 blank nodes hits the cap twice (two nodes are labelled), nothing stays deferred,
+-- every subject is Done, no fault
+example :
+    (match serialize ⟨[], "".toList⟩ (chainQuads 150) with
+     | .done w => !w.fault && w.deferred.isEmpty && w.labx.length == 2 && w.sts.length == 151 &&
+         w.sts.all (fun e => e.st == .done)
+     | .diverges => false) = true := by native_decide
 
 -- non-vacuity: two graphs, a Root with an inlined SubTree and an annotated statement; nothing is left undone
 example :
